@@ -52,6 +52,7 @@ type FuncRun struct {
 	checkSeen  map[string]int // internal (check) clauses: number of return paths on which they could be evaluated
 	checkSkip  map[string]int
 	pendingBindings []Val
+	assumedFrames   map[string]bool
 	pendingSrc      []ssa.Value
 	epochInfo map[int]*epochInfo
 	unknownCalls map[string]bool
@@ -169,7 +170,7 @@ func analyzeLoops(fn *ssa.Function) *LoopInfo {
 func (eng *Engine) newRun(fn *ssa.Function) *FuncRun {
 	run := &FuncRun{eng: eng, fn: fn, key: eng.funcKey(fn), decls: map[string]string{}, compSorts: map[string]Sort{},
 		epochInfo: map[int]*epochInfo{}, checkSeen: map[string]int{}, checkSkip: map[string]int{},
-		unknownCalls: map[string]bool{}, usedContracts: map[string]bool{}, usedExternals: map[string]bool{}, usedAxioms: map[string]bool{}, maxPaths: 4000}
+		unknownCalls: map[string]bool{}, assumedFrames: map[string]bool{}, usedContracts: map[string]bool{}, usedExternals: map[string]bool{}, usedAxioms: map[string]bool{}, maxPaths: 4000}
 	run.contract = eng.contractFor(fn)
 	run.loops = analyzeLoops(fn)
 	run.tsubst = eng.typeSubstFor(fn)
